@@ -25,6 +25,9 @@ _len = builtins.len
 
 # ======================================================================================
 # struct
+_builtins_list = builtins.list
+
+
 class StructModel:
     error = _struct.error
     Struct = _struct.Struct
@@ -42,9 +45,48 @@ class StructModel:
         return cls._fmt[fmt[1]]
 
     @classmethod
+    def _split(cls, fmt):
+        """general format -> (big_endian, [code, ...]) with repeat counts expanded; None for the simple '>c' form"""
+        if type(fmt) is str and _len(fmt) == 2 and fmt[0] in ">!" and fmt[1] in cls._fmt:
+            return None
+        if type(fmt) is not str or not fmt:
+            raise Unsupported(f"struct format {fmt!r} has no model")
+        order, body = ("@", fmt) if fmt[0] not in "@=<>!" else (fmt[0], fmt[1:])
+        codes, num = [], ""
+        for ch in body:
+            if ch.isdigit():
+                num += ch
+            elif ch.isspace():
+                continue
+            elif ch in cls._fmt:
+                codes += [ch] * (int(num) if num else 1)
+                num = ""
+            else:
+                raise Unsupported(f"struct format {fmt!r} has no model")
+        if num or not codes or _len(codes) > 4096:
+            raise Unsupported(f"struct format {fmt!r} has no model")
+        if order == "@" and (_len({cls._fmt[c][0] for c in codes}) > 1 or any(c in "lL" for c in codes)):
+            raise Unsupported(f"struct format {fmt!r}: native alignment/sizes have no model")
+        import sys as _sys
+
+        return (order in ">!" or (order in "@=" and _sys.byteorder == "big")), codes
+
+    @classmethod
     def pack(cls, fmt, *vals):
         if not any(type(v).__module__.startswith("kv.") for v in vals):
             return _struct.pack(fmt, *vals)
+        sp = cls._split(fmt)
+        if sp is not None:
+            big, codes = sp
+            if _len(vals) != _len(codes):
+                raise _struct.error(f"pack expected {_len(codes)} items for packing (got {_len(vals)})")
+            out = []
+            for code, v in zip(codes, vals):
+                its = _builtins_list(SymBytes.of(cls.pack(">" + code, v)).items)
+                if not big:
+                    its.reverse()
+                out += its
+            return SymBytes(out)
         n, signed = cls._parse(fmt)
         if _len(vals) != 1:
             raise _struct.error(f"pack expected 1 items for packing (got {_len(vals)})")
@@ -86,6 +128,26 @@ class StructModel:
             return _struct.unpack(fmt, data)
         if data.is_concrete():
             return _struct.unpack(fmt, data.concrete())
+        sp = cls._split(fmt)
+        if sp is not None:
+            big, codes = sp
+            total = sum(cls._fmt[c][0] for c in codes)
+            ln = data.sym_len()
+            if type(ln) is SymInt:
+                if not ctx().branch(ln.e == total):
+                    raise _struct.error(f"unpack requires a buffer of {total} bytes")
+            elif ln != total:
+                raise _struct.error(f"unpack requires a buffer of {total} bytes")
+            its = _builtins_list(data.expanded()) if (data.has_blob() or type(ln) is SymInt) else _builtins_list(data.items)
+            out, pos = [], 0
+            for code in codes:
+                w = cls._fmt[code][0]
+                chunk = its[pos:pos + w]
+                pos += w
+                if not big:
+                    chunk = chunk[::-1]
+                out.append(cls.unpack(">" + code, SymBytes(chunk))[0])
+            return tuple(out)
         n, signed = cls._parse(fmt)
         ln = data.sym_len()
         if type(ln) is SymInt:
@@ -1175,3 +1237,76 @@ def crc_model(data, value=0):
 class CRCModule:
     crc32c = staticmethod(crc_model)
     crc32 = staticmethod(crc_model)
+
+
+class LruModel:
+    """Stand-in for a functools.lru_cache / functools.cache wrapper held by a kio module.
+
+    Calls whose arguments are all ordinary Python values go to the real wrapper (its cache persists as in a real
+    process).  A call with a symbolic argument cannot be hashed; the memo lookup is then made explicit: the
+    arguments are compared with the keys seen earlier ON THIS PATH with Python's own `==` (so 0.0 hits -0.0, as
+    in the real cache), forking on the outcome; on a miss the wrapped function runs and the entry is recorded.
+    The per-path key list is emptied at every path start."""
+
+    __slots__ = ("real", "fn", "entries", "__weakref__")
+
+    def __init__(self, real, fn):
+        self.real = real
+        self.fn = fn
+        self.entries = []
+        from . import core as _core
+
+        _core.PATH_START_HOOKS.append(self.entries.clear)
+
+    @staticmethod
+    def _symbolic(a):
+        from . import sym as _S
+
+        return any(_S.proxy_python_type(x) is not None for x in a)
+
+    def __call__(self, *a, **kw):
+        if kw:
+            if self._symbolic(tuple(kw.values())) or self._symbolic(a):
+                raise Unsupported("memoised call with symbolic keyword arguments")
+            return self.real(*a, **kw)
+        if not self._symbolic(a) and not any(self._symbolic(k) for k, _ in self.entries):
+            v = self.real(*a)
+            # remember value-like concrete keys of this path: a later symbolic argument may compare equal to one
+            if len(self.entries) < 64 and a and all(type(x) in (int, float, bool, str, bytes, _dt.timedelta, _dt.datetime, _uuid.UUID) for x in a):
+                self.entries.append((a, v))
+            return v
+        for k, v in self.entries:
+            if len(k) == len(a):
+                hit = True
+                for x, y in zip(a, k):
+                    if x is y:
+                        continue
+                    r = x == y
+                    if not (r if type(r) is bool else bool(r)):
+                        hit = False
+                        break
+                if hit:
+                    return v
+        v = self.fn(*a)
+        self.entries.append((a, v))
+        return v
+
+    def cache_clear(self):
+        self.entries.clear()
+        return self.real.cache_clear()
+
+    def cache_info(self):
+        return self.real.cache_info()
+
+    def cache_parameters(self):
+        return self.real.cache_parameters()
+
+    @property
+    def __wrapped__(self):
+        return self.fn
+
+    def __getattr__(self, name):
+        return getattr(self.real, name)
+
+    def __repr__(self):
+        return f"<LruModel of {getattr(self.fn, '__qualname__', self.fn)!r}>"
